@@ -251,7 +251,8 @@ let sqrt_ok (n : z) (dbits : string) : bool =
   let k = (int_of_z n, dbits) in
   match Hashtbl.find_opt sqrt_tbl k with
   | Some v -> v
-  | None -> let v = sqrt_within_ulp n (n_of_hex dbits) in Hashtbl.replace sqrt_tbl k v; v
+  | None -> let v = sqrt_within_ulps (Zpos (XO XH)) n (n_of_hex dbits) in
+    if v && not (sqrt_within_ulp n (n_of_hex dbits)) then count "distance_between_1_and_2_ulps"; Hashtbl.replace sqrt_tbl k v; v
 
 let dist_check id kind name d2 ok dbits a b =
   match d2 with
